@@ -108,6 +108,7 @@ def _constraint_overflow(
 @wp.kernel
 def _zero_sparse_rows(
   # Data out:
+  efc_type_out: wp.array2d[int],
   efc_J_rownnz_out: wp.array2d[int],
   efc_J_rowadr_out: wp.array2d[int],
 ):
@@ -117,6 +118,8 @@ def _zero_sparse_rows(
   # start from empty rows so that no reader or writer follows stale addresses of an earlier call
   efc_J_rownnz_out[worldid, efcid] = 0
   efc_J_rowadr_out[worldid, efcid] = 0
+  # such a row never writes its type and id either: mark it so that it can be made inert below
+  efc_type_out[worldid, efcid] = -1
 
 
 @wp.kernel
@@ -127,6 +130,14 @@ def _njmax_nnz_empty_dropped_rows(
   # In:
   efc_nnz_in: wp.array[int],
   # Data out:
+  efc_type_out: wp.array2d[int],
+  efc_id_out: wp.array2d[int],
+  efc_pos_out: wp.array2d[float],
+  efc_margin_out: wp.array2d[float],
+  efc_D_out: wp.array2d[float],
+  efc_vel_out: wp.array2d[float],
+  efc_aref_out: wp.array2d[float],
+  efc_frictionloss_out: wp.array2d[float],
   efc_J_rownnz_out: wp.array2d[int],
   efc_J_rowadr_out: wp.array2d[int],
 ):
@@ -140,6 +151,20 @@ def _njmax_nnz_empty_dropped_rows(
   if rowadr < 0 or rowadr + efc_J_rownnz_out[worldid, efcid] > njmax_nnz_in:
     efc_J_rownnz_out[worldid, efcid] = 0
     efc_J_rowadr_out[worldid, efcid] = 0
+
+  # a dropped row never wrote its type, id and parameters (they are stale, or zero: an equality row of a model
+  # without equalities): make it an inert, empty row so that consumers of efc.type / efc.id stay in bounds
+  if efc_type_out[worldid, efcid] < 0:
+    efc_J_rownnz_out[worldid, efcid] = 0
+    efc_J_rowadr_out[worldid, efcid] = 0
+    efc_type_out[worldid, efcid] = ConstraintType.LIMIT_JOINT
+    efc_id_out[worldid, efcid] = 0
+    efc_pos_out[worldid, efcid] = 0.0
+    efc_margin_out[worldid, efcid] = 0.0
+    efc_D_out[worldid, efcid] = 0.0
+    efc_vel_out[worldid, efcid] = 0.0
+    efc_aref_out[worldid, efcid] = 0.0
+    efc_frictionloss_out[worldid, efcid] = 0.0
 
 
 @wp.func
@@ -4981,7 +5006,7 @@ def make_constraint(m: types.Model, d: types.Data):
   )
 
   if m.is_sparse:
-    wp.launch(_zero_sparse_rows, dim=(d.nworld, d.njmax), outputs=[d.efc.J_rownnz, d.efc.J_rowadr])
+    wp.launch(_zero_sparse_rows, dim=(d.nworld, d.njmax), outputs=[d.efc.type, d.efc.J_rownnz, d.efc.J_rowadr])
 
   if not (m.opt.disableflags & types.DisableBit.CONSTRAINT):
     if not (m.opt.disableflags & types.DisableBit.EQUALITY):
@@ -5925,5 +5950,16 @@ def make_constraint(m: types.Model, d: types.Data):
       _njmax_nnz_empty_dropped_rows,
       dim=(d.nworld, d.njmax),
       inputs=[d.nefc, d.njmax_nnz, efc_nnz],
-      outputs=[d.efc.J_rownnz, d.efc.J_rowadr],
+      outputs=[
+        d.efc.type,
+        d.efc.id,
+        d.efc.pos,
+        d.efc.margin,
+        d.efc.D,
+        d.efc.vel,
+        d.efc.aref,
+        d.efc.frictionloss,
+        d.efc.J_rownnz,
+        d.efc.J_rowadr,
+      ],
     )
